@@ -4,9 +4,17 @@ History monitor with a differential oracle: after EVERY step of a generated
 history of file-system operations and enforcement calls, the long-lived real
 Enforcer is compared (decisions for all names x single-role credentials, and
 the printed rule store) with a brand-new Enforcer reading the current files.
-Faults enumerated: file disappearance, emptiness, re-creation, touch."""
+Faults enumerated: file disappearance, emptiness, re-creation, touch.
+
+Stratum G: the registered defaults refer BY NAME (`rule:<name>`, bare, negated,
+inside and/or) to helper rules that only the files define - and that the
+history rewrites, removes and re-creates - and to other registered defaults
+that the files override.  The check objects of registered defaults live as long
+as the enforcer, so anything they remember about a referenced rule must not
+outlive the file that defined it."""
 import itertools
 import os
+import re
 
 from pv.core import env
 from pv.gen import files
@@ -21,7 +29,14 @@ RULE = ('histories over {write content A/B, empty, touch, delete (a later write 
         'enforce_new_defaults on/off, starting with or without a main file. H = every history up to the length bound '
         '(22 operations per step); R = random histories of 15-40 steps with random contents (JSON or YAML, aliases of '
         'the deprecated name included). Every step advances a logical mtime on the file and its directory. Non-trivial = '
-        'the history contains a deletion or an emptying after a load; distinct = distinct (initial state, history).')
+        'the history contains a deletion or an emptying after a load; distinct = distinct (initial state, history). '
+        'G = the same differential with registered defaults that refer by name (rule:<x> bare, under not, inside and/or, '
+        'also through a deprecated default) to helper rules h1..h3 defined only by the files (main file and policy.d '
+        'files) and to other registered defaults that the files override, over histories that redefine / remove / '
+        're-create the referenced rules (every history up to length 2 over an 8-operation alphabet x 2 default sets x '
+        'with/without main file, plus random histories of 8-25 steps with random reference-carrying default sets and '
+        'contents, some steps without an enforcement in between); decisions for all names x single- and two-role '
+        'credentials; non-trivial there = a file changes after the first load.')
 ASSUMPTIONS = ['each change advances modification times: enforced by the harness with a logical clock (file and directory)',
                'directories themselves are never removed; rule contents never create reference cycles',
                'the fresh enforcer is built with the same options and freshly constructed equal defaults']
@@ -30,12 +45,13 @@ LEVEL_TEXT = ('All histories up to length 2 (thorough: 3) over a 22-operation al
               'Fault enumeration: the faults are file deletion, emptying, re-creation and touch at every position.')
 LEVEL_NOTE = 'trusted: a newly constructed Enforcer as the oracle of "what the current files mean"; os.utime for the clock'
 PLAN = {'quick': dict(shards=8, wall=80), 'thorough': dict(shards=16, wall=500)}
-MIN = {'evaluations': 1000, 'steps_compared': 3000, 'deletions': 300, 'reloads_observed': 500}
+MIN = {'evaluations': 1000, 'steps_compared': 3000, 'deletions': 300, 'reloads_observed': 500,
+       'ref_default_steps': 300, 'ref_target_changes': 100}
 ANCHORS = ['oslo_policy._cache_handler:read_cached_file', 'oslo_policy.policy:Enforcer._is_directory_updated',
            'oslo_policy.policy:Enforcer.load_rules', 'oslo_policy.policy:Enforcer._load_policy_file',
            'oslo_policy.policy:Enforcer.enforce']
 REQUIRED_ANCHORS = ['oslo_policy.policy:Enforcer.enforce', 'oslo_policy.policy:Enforcer.load_rules']
-BOUNDS = {'quick': dict(L=2, nR=150), 'thorough': dict(L=3, nR=20000)}
+BOUNDS = {'quick': dict(L=2, nR=150, gL=2, nG=64), 'thorough': dict(L=3, nR=20000, gL=3, nG=800)}
 
 NAMES = ['n1', 'n2', 'n3', 'old1', 'new1']
 ROLES = ['a', 'b', 'c', 'd', 'o', 'n']
@@ -43,6 +59,91 @@ FILES = ['policy.yaml', 'd1/a.yaml', 'd1/b.yaml', 'd2/a.yaml']
 CONTENT = {'A': {'n1': 'role:a', 'old1': 'role:b'}, 'B': {'n2': 'role:c', 'new1': 'role:a', 'n1': 'role:b'}}
 ALPHABET = ([['write', f, c] for f in FILES for c in 'AB'] + [['empty', f] for f in FILES] +
             [['touch', f] for f in FILES] + [['delete', f] for f in FILES] + [['load'], ['enforce']])
+
+# -- stratum G: registered defaults that refer to other rules by name ---------------------------------------------
+# Reference order (never a cycle): g<j> -> g<i> (i < j) | n1 | new1 | h*;  n1, new1, old1 -> h* (old1 also the alias
+# rule:new1);  h<i> -> h<j> (j > i);  everything else is a role leaf or a constant.
+HELPERS = ['h1', 'h2', 'h3']
+G_CREDS = [['a'], ['b'], ['c'], ['d'], ['o'], ['d', 'a'], ['d', 'b'], ['c', 'a']]
+G_CONTENT = {'X': {'h1': 'role:a', 'h2': 'role:b', 'n1': 'role:c'},
+             'Y': {'h1': 'role:b', 'h3': 'role:a', 'h2': 'rule:h3'}}
+G_DEFS = [[['n1', 'role:d'], ['g1', 'rule:h1'], ['g2', 'not rule:h2'], ['g3', 'role:d and rule:h1'],
+           ['g4', 'role:c or rule:h2'], ['g5', 'rule:n1'], ['g6', 'not rule:n1 or rule:h3']],
+          [['n1', 'role:d'], ['g1', 'rule:h2'], ['g2', 'role:a and not rule:n1'], ['new1', 'rule:h1', ['old1', 'role:o']],
+           ['g3', 'rule:new1 or rule:h3'], ['g4', '(rule:g1 and role:d) or role:o']]]
+G_FILES = ['policy.yaml', 'd1/a.yaml']
+G_ALPHABET = ([['write', f, {'text': files.render(G_CONTENT[c], 'json')}] for f in G_FILES for c in 'XY'] +
+              [['empty', f] for f in G_FILES] + [['delete', f] for f in G_FILES])
+REF_FORMS = ['rule:%s', 'not rule:%s', 'role:d and rule:%s', 'role:c or rule:%s', 'not rule:%s or role:d',
+             '(rule:%s and role:d) or role:o', 'rule:%s and rule:%s', 'rule:%s or not rule:%s', 'not (rule:%s or role:a)']
+_REF = re.compile(r'rule:([A-Za-z0-9_]+)')
+
+
+def make_ref_defaults(policy, defs):
+    out = []
+    for d in defs:
+        if len(d) > 2 and d[2]:
+            dep = policy.DeprecatedRule(d[2][0], d[2][1], deprecated_reason='r', deprecated_since='s')
+            out.append(policy.RuleDefault(d[0], d[1], deprecated_rule=dep))
+        else:
+            out.append(policy.RuleDefault(d[0], d[1]))
+    return out
+
+
+def referenced(defs):
+    return sorted({m for d in defs for m in _REF.findall(d[1])})
+
+
+def case_space(case):
+    """names x credentials on which the two enforcers are compared"""
+    defs = case.get('defs')
+    if defs is None:
+        return NAMES, [[r] for r in ROLES]
+    names = []
+    for n in [d[0] for d in defs] + HELPERS + ['n1', 'old1', 'new1']:
+        if n not in names:
+            names.append(n)
+    return names, G_CREDS
+
+
+def rnd_ref_defs(rnd):
+    defs = [['n1', 'role:d']]
+    targets = HELPERS + HELPERS + ['n1']
+    if rnd.random() < 0.4:
+        defs.append(['new1', rnd.choice(['rule:' + rnd.choice(HELPERS), 'role:n']), ['old1', 'role:o']])
+        targets = targets + ['new1']
+    for i in range(1, rnd.randint(3, 6)):
+        form = rnd.choice(REF_FORMS)
+        defs.append(['g%d' % i, form % tuple(rnd.choice(targets) for _ in range(form.count('%s')))])
+        targets = targets + ['g%d' % i]
+    return defs
+
+
+def rnd_ref_content(rnd, defs):
+    pool = HELPERS * 3 + ['n1', 'n1', 'old1', 'new1'] + [d[0] for d in defs if d[0].startswith('g')]
+    d = {}
+    for n in rnd.sample(pool, rnd.randint(0, 4)):
+        if n in d:
+            continue
+        x = rnd.random()
+        if n in HELPERS:
+            higher = HELPERS[HELPERS.index(n) + 1:]
+            if higher and x < 0.2:
+                d[n] = 'rule:' + rnd.choice(higher)
+            elif x < 0.3:
+                d[n] = 'not role:' + rnd.choice(ROLES[:3])
+            elif x < 0.4:
+                d[n] = rnd.choice(['@', '!'])
+            else:
+                d[n] = 'role:' + rnd.choice(ROLES[:4])
+        elif n == 'old1' and x < 0.2:
+            d[n] = 'rule:new1'
+        elif x < 0.3:
+            d[n] = 'rule:' + rnd.choice(HELPERS)
+        else:
+            d[n] = 'role:' + rnd.choice(ROLES[:3])
+    fmt = rnd.choice(['json', 'yaml-lines', 'yaml'])
+    return files.render(d, fmt) if d or fmt == 'json' else ''
 
 
 def make_defaults(policy, kind):
@@ -55,14 +156,15 @@ def make_defaults(policy, kind):
     return ds
 
 
-def decisions(enf):
+def decisions(enf, names=NAMES, creds=None):
     out = {}
-    for n in NAMES:
-        for r in ROLES:
+    for n in names:
+        for rs in (creds if creds is not None else [[r] for r in ROLES]):
+            k = n + '/' + '+'.join(rs)
             try:
-                out[n + '/' + r] = bool(enf.enforce(n, {}, {'roles': [r]}))
+                out[k] = bool(enf.enforce(n, {}, {'roles': list(rs)}))
             except Exception as e:
-                out[n + '/' + r] = 'EXC:%s:%s' % (type(e).__name__, str(e)[:60])
+                out[k] = 'EXC:%s:%s' % (type(e).__name__, str(e)[:60])
     return out
 
 
@@ -79,19 +181,29 @@ def run_history(ctx, case):
     try:
         flag = case['flag']
 
+        defs = case.get('defs')                    # stratum G: the registered defaults travel with the case
+        names, creds = case_space(case)
+        refs = referenced(defs) if defs is not None else []
+        skip = set(case.get('skip') or ())
+
         def mk():
             e = policy.Enforcer(tree.conf(enforce_new_defaults=flag))
-            e.register_defaults(make_defaults(policy, case['kind']))
+            e.register_defaults(make_ref_defaults(policy, defs) if defs is not None else make_defaults(policy, case['kind']))
             return e
         if case['initial'] is not None:
             tree.write_text('policy.yaml', case['initial'])
         enf = mk()
         if case.get('warm', True):
-            decisions(enf)                       # the service has been running: first load done
+            decisions(enf, names, creds)         # the service has been running: first load done
         main_seen = tree.exists('policy.yaml')
         hist = case['history']
         nontrivial = False
         loaded = case.get('warm', True)
+        changed_after_load = False
+        seen_targets = None                        # what the referenced names meant at the previous enforcement
+        if defs is not None and loaded:
+            p0 = printed(enf)
+            seen_targets = {n: p0.get(n) for n in refs}
         for i, op in enumerate(hist):
             kind = op[0]
             if kind == 'write':
@@ -116,11 +228,18 @@ def run_history(ctx, case):
                     return
                 loaded = True
             main_seen = main_seen or tree.exists('policy.yaml')
-            got = decisions(enf)
+            if kind in ('write', 'empty', 'delete') and loaded:
+                changed_after_load = True
+            if i in skip:                          # several edits between two enforcements
+                continue
+            was_loaded = loaded
+            got = decisions(enf, names, creds)
             loaded = True
             fresh = mk()
-            want = decisions(fresh)
+            want = decisions(fresh, names, creds)
             ctx.count('steps_compared')
+            if defs is not None:
+                ctx.count('ref_default_steps')
             if got != want:
                 diff = {k: [got[k], want[k]] for k in got if got[k] != want[k]}
                 excs = [v[0] for v in diff.values() if isinstance(v[0], str)]
@@ -139,7 +258,15 @@ def run_history(ctx, case):
                                'long_lived': {k: v for k, v in pg.items() if pw.get(k) != v},
                                'fresh': {k: v for k, v in pw.items() if pg.get(k) != v}})
                 return
-        ctx.case([case['initial'], case['kind'], case['flag'], hist], nontrivial=nontrivial, stratum=case['s'])
+            if defs is not None:
+                now = {n: pw.get(n) for n in refs}
+                if was_loaded and seen_targets is not None and now != seen_targets:
+                    ctx.count('ref_target_changes')   # a referenced rule changed meaning between two enforcements
+                seen_targets = now
+        if defs is not None:
+            ctx.case([case['initial'], defs, case['flag'], hist, sorted(skip)], nontrivial=changed_after_load, stratum=case['s'])
+        else:
+            ctx.case([case['initial'], case['kind'], case['flag'], hist], nontrivial=nontrivial, stratum=case['s'])
         ctx.count('reloads_observed', sum(1 for op in hist if op[0] in ('write', 'empty', 'touch', 'delete')))
     finally:
         tree.cleanup()
@@ -191,6 +318,7 @@ def run(ctx):
             if not done:
                 break
     ctx.stratum('H', exhaustive=done)
+    run_refs(ctx, b)
     rnd = ctx.rnd
     for i in range(b['nR'] // ctx.nshards + 1):
         if ctx.expired():
@@ -213,6 +341,51 @@ def run(ctx):
     ctx.stratum('R', exhaustive=False)
     for k, v in contracts.EVALS.items():
         ctx.count('contract_evals.' + k, v)
+
+
+def run_refs(ctx, b):
+    """Stratum G (own random streams: the histories of stratum R stay what they were)."""
+    inits = [None, files.render(G_CONTENT['X'], 'json')]
+    idx = 0
+    done = True
+    for L in range(1, b['gL'] + 1):
+        for hist in itertools.product(range(len(G_ALPHABET)), repeat=L):
+            for di in range(len(G_DEFS)):
+                for init in (0, 1):
+                    idx += 1
+                    if not ctx.mine(idx):
+                        continue
+                    if L > 2 and ctx.expired():
+                        done = False
+                        continue
+                    case = dict(s='G', initial=inits[init], kind=0, flag=bool((idx // 3) % 2), defs=G_DEFS[di],
+                                history=[G_ALPHABET[i] for i in hist])
+                    run_history(ctx, case)
+                    if idx % 40 == 0:
+                        ctx.sample(case, 'G')
+    ctx.stratum('G', exhaustive=done)
+    for i in range(b['nG'] // ctx.nshards + 1):
+        if i >= 8 and ctx.expired():
+            break
+        rnd = ctx.sub_rnd('G', ctx.tier, ctx.shard, i)
+        defs = rnd_ref_defs(rnd)
+        hist = []
+        for _ in range(rnd.randint(8, 25)):
+            op = rnd.choice(['write', 'write', 'write', 'empty', 'touch', 'delete', 'delete', 'load', 'enforce'])
+            f = rnd.choice(FILES[:2] + FILES)
+            if op == 'write':
+                hist.append(['write', f, {'text': rnd_ref_content(rnd, defs)}])
+            elif op in ('load', 'enforce'):
+                hist.append([op])
+            else:
+                hist.append([op, f])
+        skip = [j for j in range(len(hist)) if rnd.random() < 0.2]
+        case = dict(s='GR', initial=rnd_ref_content(rnd, defs) if rnd.random() < 0.7 else None, kind=0,
+                    flag=rnd.random() < 0.5, defs=defs, history=hist, skip=skip, warm=rnd.random() < 0.8)
+        run_history(ctx, case)
+        if i % 4 == 0:
+            ctx.sample(dict(case, history=case['history'][:8] + ['...']), 'GR')
+    ctx.stratum('GR', exhaustive=False)
 
 
 def replay(ctx, case):
